@@ -10,7 +10,8 @@ import vlib
 
 TARGETS = ["Base/Num.vo", "Base/Corr.vo", "C13/Model.vo", "C13/ModelKernels.vo", "C13/Spec.vo", "C13/SpecTest.vo",
            "C13/Corr.vo", "C13/Anchors.vo", "C13/ProofsGlue.vo", "C13/ProofsDrivers.vo", "C13/ProofsTables.vo",
-           "C13/ProofsAnchors.vo", "C13/Spec2.vo", "C13/ProofsAnchors2.vo", "C13/Anchors2.vo", "C13/Props.vo"]
+           "C13/ProofsAnchors.vo", "C13/Spec2.vo", "C13/ProofsAnchors2.vo", "C13/Anchors2.vo", "C13/Spec3.vo", "C13/ProofsAnchors3.vo",
+           "C13/Props.vo"]
 PROPS = ["C13/Props.v"]
 PARTIAL = ("No theorem about the accuracy of the Boost-ported kernels (gamma_incomplete_imp, igamma_temme_large, bessel_ik, "
            "temme_ik, CF1/CF2, digamma/trigamma/polygamma/zeta rational approximations) over all float64 arguments is attempted. "
@@ -32,7 +33,15 @@ PARTIAL = ("No theorem about the accuracy of the Boost-ported kernels (gamma_inc
            "and non-positive integers only (where the code itself evaluates the closed form); odd integers and non-integers: sweep "
            "only. Branches no certified anchor reaches are listed under uncovered_branches (measured with go build -cover). The step "
            "from R to binary64 in the glue is bounded per sampled case only (bit-exact replay for + - * /, certified enclosure "
-           "otherwise). The dense relation sweep is supporting differential testing of the code against itself, not the decision.")
+           "otherwise). The dense relation sweep is supporting differential testing of the code against itself, not the decision. "
+           "Round 3 (whole domain): every sign / parity (`& 1`, `% 2`) / integer-ness test of the source is listed by the go/ast pass and must "
+           "have an anchor on each side (exceptions listed under boundaries.sign_parity_integer_not_both_sides). Integer-order Bessel functions "
+           "have no elementary closed form: their parity / negative-order branches are anchored by EXACT outcome anchors decided in float64 "
+           "(I(v,-x) = +-I(v,|x|) bit for bit, I_{-n} = I_n, NaN for the logarithm of a negative value, panic-or-NaN for non-integer order with "
+           "x < 0) plus a float64 power-series value; the identities themselves are theorems (BesselI_integer_order_parity ...), the series "
+           "value is not certified in Coq. Zeta at negative non-integers is certified only RELATIVE to Go's own Zeta(1-s) through the "
+           "functional equation (Zeta(1-s), s > 1 non-integer, is checked by direct summation in the sweep only). LogErfc(x) = ln 2 for "
+           "x <= -6 is an exact float anchor (the bound erfc(6) < 2^-55 is not certified in Coq).")
 BOUNDARIES_EXPECTED = "corpus/C13/boundaries_expected.json"
 
 
@@ -71,7 +80,7 @@ def boundary_report(ctx, binary, anchors, okset):
         else:
             c = "one_side"
         cls_count[c] += 1
-        rows.append({"site": "%s:%d" % (b["file"], b["line"]), "key": b["key"], "class": c, "anchors": st})
+        rows.append({"site": "%s:%d" % (b["file"], b["line"]), "key": b["key"], "class": c, "anchors": st, "kind": b.get("kind", "")})
     exp_path = os.path.join(vlib.ROOT, BOUNDARIES_EXPECTED)
     drift = None
     if os.path.exists(exp_path):
@@ -85,7 +94,16 @@ def boundary_report(ctx, binary, anchors, okset):
                              "distinct": len(seen), "classes": cls_count,
                              "uncovered": [r["key"] for r in rows if r["class"] == "uncovered"],
                              "one_side": [r["key"] for r in rows if r["class"] == "one_side"],
+                             "sign_parity_integer": {"listed": sum(1 for r in rows if r["kind"]),
+                                                     "both_sides": sum(1 for r in rows if r["kind"] and r["class"] not in ("uncovered", "one_side"))},
+                             "sign_parity_integer_not_both_sides": [r["kind"] + " " + r["key"] for r in rows if r["kind"] and r["class"] in ("uncovered", "one_side")],
                              "drift_vs_expected": drift, "list": rows}
+    exp2 = os.path.join(vlib.ROOT, "corpus/C13/parity_exempt.json")
+    if os.path.exists(exp2):
+        exempt = set(json.load(open(exp2)).keys())
+        lost = [k for k in ctx.cov["boundaries"]["sign_parity_integer_not_both_sides"] if k.split(" ", 1)[1] not in exempt]
+        if lost:
+            ctx.notes.append("sign/parity/integer-ness tests of the source WITHOUT an anchor on each side (not in corpus/C13/parity_exempt.json): %s" % lost)
     ctx.log("boundaries: %d distinct comparisons; %s" % (len(seen), ", ".join("%s=%d" % kv for kv in cls_count.items())))
 
 
@@ -282,7 +300,15 @@ def run(ctx):
         if r["rc"] != 0:
             ctx.violation({"obligation": "anchor shard " + os.path.basename(r["path"]), "coqc_error": r["log"]}, False,
                           "anchor shard did not evaluate (coqc rc=%s)" % r["rc"])
+    for a in anchors:
+        if a.get("kf"):
+            kf = known({"fn": a["fn"], "label": a["label"]})
+            if kf:
+                ctx.known_finding(kf["id"], kf["what"])
+            else:
+                ctx.violation({"anchor": a}, True, "anchor reproduces an unlisted finding: " + a["desc"])
     boundary_report(ctx, binary, anchors, okset)
+    ctx.cov["domain_table"] = json.load(open(os.path.join(ctx.dir, "domain.json"))) if os.path.exists(os.path.join(ctx.dir, "domain.json")) else None
     ctx.cov["anchors"]["round2_boundary_and_large_order"] = {"total": sum(1 for a in anchors if a.get("bnd")),
                                                             "certified": sum(1 for a in anchors if a.get("bnd") and a["id"] in okset)}
     # ---- sweep + corpus (supporting; feeds the hunt)
